@@ -7,9 +7,10 @@ FUNCTIONS = ['base_client.BaseClient._reset', 'client.Client._send_packet',
              'async_client.AsyncClient.send', 'async_client.AsyncClient._receive_packet',
              'client.Client._read_loop_polling', 'async_client.AsyncClient._read_loop_polling',
              'client.Client._read_loop_websocket', 'async_client.AsyncClient._read_loop_websocket',
-             'client.Client._connect_polling', 'async_client.AsyncClient._connect_polling']
+             'client.Client._connect_polling', 'async_client.AsyncClient._connect_polling',
+             'client.Client.connect', 'async_client.AsyncClient.connect']
 
 LEVEL_TEXT = 'packet-level lifecycle functions of both clients (Client and AsyncClient, one contract text) are verified: disconnect() always ends in state disconnected with the sid cleared, is a no-op on a client that is not connected, and on a connected client queues CLOSE then the sentinel and fires exactly one disconnect event with the given reason; send()/_send_packet() are no-ops unless connected; a CLOSE packet from the server disconnects; _reset gives the reusable state'
-LEVEL_NOTE = 'both clients\' read loops (polling and WebSocket) are under contract (when it returns the client is no longer connected; a connection it ends itself is reported by exactly one disconnect event with reason transport error before the reset, a CLOSE packet by one with reason server disconnect, no other synchronous event is fired; two escaping exceptions are known findings); both clients\' polling handshake _connect_polling is under contract (only ConnectionError may be raised and it leaves the client disconnected with no event and no task; otherwise the connect handler is the first event and fires once, the rest of the first payload is dispatched, loops are started) with _connect_websocket as an ASSUMED contract; five kinds of malformed reply escape as other exceptions (known findings); connect() itself (argument filtering, dispatch), _connect_websocket (network glue over requests / websocket-client / aiohttp) are NOT under contract: the clauses about ConnectionError on refusal, adoption of the OPEN fields, task termination and wait() are not decided'
+LEVEL_NOTE = 'both clients\' read loops (polling and WebSocket) are under contract (when it returns the client is no longer connected; a connection it ends itself is reported by exactly one disconnect event with reason transport error before the reset, a CLOSE packet by one with reason server disconnect, no other synchronous event is fired; two escaping exceptions are known findings); both clients\' polling handshake _connect_polling is under contract (only ConnectionError may be raised and it leaves the client disconnected with no event and no task; otherwise the connect handler is the first event and fires once, the rest of the first payload is dispatched, loops are started) with _connect_websocket as an ASSUMED contract; five kinds of malformed reply escape as other exceptions (known findings); connect() is under contract on top of it (ValueError unless disconnected / no valid transport, otherwise the chosen handshake\'s contract); _connect_websocket (network glue over requests / websocket-client / aiohttp) are NOT under contract: the clauses about ConnectionError on refusal, adoption of the OPEN fields, task termination and wait() are not decided'
 NOT_DECIDED = ['connect() outcomes and exception classes', 'background task termination / wait()', 'known findings KF-C08-disconnect-before-loops(-async) and KF-C08-double-disconnect-(async)client']
 ASSUMPTIONS = [LEVEL_NOTE]
